@@ -194,6 +194,49 @@ def _decorator_names(node):
     return out
 
 
+def _apply_wrapping_decorators(module, fn):
+    """A method decorated with a module-level decorator of the usual closure form (`def deco(method): def wrapper(self, ...): <pre>; return method(self, ...)`)
+    is analysed as the statements the wrapper runs before the call, followed by the method's own body (and the statements after the call, if any): what the
+    wrapper writes before it calls the method is written before the method validates anything."""
+    import copy
+
+    out = fn
+    for d in reversed(fn.decorator_list):
+        if not isinstance(d, ast.Name):
+            continue
+        deco = next((x for x in module.tree.body if isinstance(x, ast.FunctionDef) and x.name == d.id), None)
+        if deco is None or not deco.args.args:
+            continue
+        mparam = deco.args.args[0].arg
+        inner = [x for x in deco.body if isinstance(x, ast.FunctionDef)]
+        rets = [x for x in deco.body if isinstance(x, ast.Return) and isinstance(x.value, ast.Name)]
+        if len(inner) != 1 or not rets or rets[-1].value.id != inner[0].name or not inner[0].args.args:
+            continue
+        w = inner[0]
+        wself = w.args.args[0].arg
+        idx = None
+        for i, st in enumerate(w.body):
+            if any(isinstance(c, ast.Call) and isinstance(c.func, ast.Name) and c.func.id == mparam for c in ast.walk(st)):
+                idx = i
+                break
+        if idx is None:
+            continue
+        mself = out.args.args[0].arg if out.args.args else wself
+
+        class Ren(ast.NodeTransformer):
+            def visit_Name(self, n):
+                if n.id == wself:
+                    return ast.copy_location(ast.Name(id=mself, ctx=n.ctx), n)
+                return n
+
+        pre = [Ren().visit(copy.deepcopy(x)) for x in w.body[:idx]]
+        post = [] if isinstance(w.body[idx], ast.Return) else [Ren().visit(copy.deepcopy(x)) for x in w.body[idx + 1:] if not isinstance(x, ast.Return)]
+        new = copy.copy(out)
+        new.body = pre + list(out.body) + post
+        out = new
+    return out
+
+
 class Program:
     def __init__(self, root, package="kafe2", exclude=("kafe2/test",), overrides=None):
         """overrides: {relative path: source text} analysed instead of the file on disk (mutant self-test only)."""
@@ -423,7 +466,7 @@ class Program:
                     kind = "static"
                 elif "classmethod" in decs:
                     kind = "class"
-                c.methods[st.name] = FuncInfo(st.name, c, c.module, st, kind)
+                c.methods[st.name] = FuncInfo(st.name, c, c.module, _apply_wrapping_decorators(c.module, st), kind)
             elif isinstance(st, ast.Assign):
                 for t in st.targets:
                     if isinstance(t, ast.Name):
